@@ -75,6 +75,10 @@ def rewire(n, rng):
             if not wires:
                 continue
             pins = [p for port in d.ports for p in port.pins] + [op for ch in d.children for op in ch.pins]
+            for ch in d.children:
+                if rng.random() < 0.15:
+                    ch.reference = ch.reference         # a legal no-op edit: nothing about the nets may change
+                    moved += 1
             for p in pins:
                 x = rng.random()
                 if x < 0.25:
